@@ -144,7 +144,7 @@ def test_case(case, note):
         e1, e2 = A.err(o1[k], r1, tr1), A.err(o2[k], r2, tr2)
         ok, q = A.order_ok(e1, e2, p, floor)
         if np.isfinite(q):
-            mg.append(q - (p - 1.5))
+            mg.append(q - (p - max(1.5, 0.3 * p)))
         if not ok:
             note.fail(key, dict(e1=e1, e2=e2, q=q, scale=scale, floor=floor))
     for k in ZERO_KEYS:
